@@ -539,6 +539,10 @@ def _leap_rule(ctx, run):
                 j = parent[j]
             p = f.exprs[parent[j]] if j in parent else None
             d = ex.const(f, p["c"][1]) if p is not None and p["k"] == "bin" and p["op"] == "%" and p["c"][0] == j else None
+            if d is None and p is not None and p["k"] == "bin" and p["op"] == "&" and p["c"][0] == j:
+                m = ex.const(f, p["c"][1])
+                if m is not None and m > 0 and (m & (m + 1)) == 0:
+                    d = m + 1           # year & (2^k - 1) is year % 2^k (the year is unsigned)
             if not d or 400 % d:
                 run.note("is_leap_year reads `%s` other than through `%% d` with d | 400 (%s): the congruence evaluation does not "
                          "apply; leap rule not decided" % (pname, ex.pretty(f, parent.get(j, i))[:40]))
@@ -565,6 +569,8 @@ def _leap_rule(ctx, run):
             a, b = ev(e["c"][0], r), ev(e["c"][1], r)
             if op == "%" and isinstance(a, tuple):
                 return a[1] % b
+            if op == "&" and isinstance(a, tuple) and isinstance(b, int) and b > 0 and (b & (b + 1)) == 0 and 400 % (b + 1) == 0:
+                return a[1] & b
             if isinstance(a, tuple) or isinstance(b, tuple):
                 raise AnalysisBroken("is_leap_year: the year escapes the residue domain in `%s`" % ex.pretty(f, i))
             return {"==": a == b, "!=": a != b, "<": a < b, ">": a > b, "<=": a <= b, ">=": a >= b, "+": a + b, "-": a - b,
@@ -630,9 +636,11 @@ def _no_signed_remainder(ctx, run):
             continue
         an = None
         for i, e in enumerate(f.exprs):
-            if not (e["k"] == "bin" and e["op"] == "%") or flow.elem_pos(f).get(i) is None:
+            if not (e["k"] == "bin" and (e["op"] == "%" or (e["op"] == "&" and e.get("n6")))) or flow.elem_pos(f).get(i) is None:
                 continue
             n += 1
+            if e["op"] == "&":
+                continue            # N6: the operand cannot be negative by its type
             l = f.exprs[ex.skip(f, e["c"][0])]
             it = l.get("it")
             if not it or it[1] == 0:
@@ -650,7 +658,7 @@ def _no_signed_remainder(ctx, run):
     if not bad:
         run.holds("RF-SIGN", "RF-SIGN:pdc.c:signed-remainder", "%d remainder operations in pdc.c, none on a possibly negative signed "
                   "operand" % n, "src/pdc.c", nontrivial=False)
-    run.floor("remainder operations in pdc.c", n, 3)
+    run.floor("remainder / power-of-two mask operations in pdc.c", n, 2)
 
 
 def _conversion_validates(ctx, run):
